@@ -14,6 +14,12 @@
                                          raises the state), PCb6 (onClosed -> close(ch.closed))
      Channel.connectionActive/addConnection   PAd1 (the Lock region), PAd2 (c.close() when not added)
      Channel.Connect state test          PConn
+     Channel.Serve                       PSrv (ONE Lock region, held by defer to the end: the test of
+                                         mutable.l, mutable.l = tnet.Wrap(l) -- assigned BEFORE the state
+                                         test, so a refused Serve still leaves the listener set --, the
+                                         state test `state != ChannelClient`, state = ChannelListening)
+     Channel.ListenAndServe              PLs1 (the RLock region: the test of mutable.l; net.Listen is
+                                         assumed to succeed), then Serve (PSrv)
 
    getMinConnectionState reads the connections one after the other (each under that
    connection's read lock): the scan is modelled by its start (PCb4, remembering the minimum
@@ -40,13 +46,17 @@ Record cshared := mkC {
   conns : list nat;       (* keys of ch.mutable.conns (connection = index into cstates) *)
   cstates : list Z;       (* environment: the state of every connection created so far *)
   g_closed : Z;           (* ghost: number of close(ch.closed) executed *)
-  g_owed : list nat       (* ghost: connections that changed state and whose callback has not started yet *)
+  g_owed : list nat;      (* ghost: connections that changed state and whose callback has not started yet *)
+  lis : bool              (* ch.mutable.l != nil *)
 }.
 
-Definition set_chst s v := mkC v (conns s) (cstates s) (g_closed s) (g_owed s).
-Definition set_conns s v := mkC (chst s) v (cstates s) (g_closed s) (g_owed s).
-Definition set_closed s v := mkC (chst s) (conns s) (cstates s) v (g_owed s).
-Definition set_cstate s (c : nat) (v : Z) := mkC (chst s) (conns s) (upd (cstates s) c v) (g_closed s) (g_owed s ++ [c]).
+Definition set_chst s v := mkC v (conns s) (cstates s) (g_closed s) (g_owed s) (lis s).
+Definition set_conns s v := mkC (chst s) v (cstates s) (g_closed s) (g_owed s) (lis s).
+Definition set_closed s v := mkC (chst s) (conns s) (cstates s) v (g_owed s) (lis s).
+Definition set_cstate s (c : nat) (v : Z) := mkC (chst s) (conns s) (upd (cstates s) c v) (g_closed s) (g_owed s ++ [c]) (lis s).
+Definition set_lis s (v : bool) := mkC (chst s) (conns s) (cstates s) (g_closed s) (g_owed s) v.
+Definition set_owed s v := mkC (chst s) (conns s) (cstates s) (g_closed s) v (lis s).
+Definition add_cstate s (v : Z) := mkC (chst s) (conns s) (cstates s ++ [v]) (g_closed s) (g_owed s) (lis s).
 
 Definition cstate (s : cshared) (c : nat) : Z := nth c (cstates s) kCl.
 Definition remn (c : nat) (l : list nat) : list nat := filter (fun x => negb (Nat.eqb x c)) l.
@@ -61,6 +71,9 @@ Definition conn_close (s : cshared) (c : nat) : cshared :=
 Definition oCloseDone : Z := 1.   Definition oCloseNoop : Z := 2.
 Definition oCbDone : Z := 3.      Definition oAdded : Z := 4.  Definition oNotAdded : Z := 5.
 Definition oConnOk : Z := 6.      Definition oConnErr : Z := 7.
+Definition oSrvOk : Z := 8.       (* Serve returned nil: the channel is listening *)
+Definition oSrvAlready : Z := 9.  (* errAlreadyListening *)
+Definition oSrvInvalid : Z := 10. (* errInvalidStateForOp *)
 
 Inductive cpc :=
 | CDone (o : Z)
@@ -73,7 +86,8 @@ Inductive cpc :=
 | PCb5 (c : nat) (chState : Z) (updateTo : Z)
 | PCb6
 | PAd1 (c : nat) | PAd2 (c : nat)
-| PConn.
+| PConn
+| PSrv | PLs1.
 
 Definition update_to (minState chState : Z) : Z :=
   if kCl <=? minState then hCl
@@ -117,34 +131,43 @@ Definition ctstep (s : cshared) (p : cpc) (arg : Z) : option (cshared * cpc) :=
   | PAd2 c => Some (conn_close s c, CDone oNotAdded)
   | PConn =>
       if (chst s =? hClient) || (chst s =? hListening) then Some (s, CDone oConnOk) else Some (s, CDone oConnErr)
+  | PSrv =>
+      if lis s then Some (s, CDone oSrvAlready)
+      else
+        let s1 := set_lis s true in
+        if negb (chst s =? hClient) then Some (s1, CDone oSrvInvalid)
+        else Some (set_chst s1 hListening, CDone oSrvOk)
+  | PLs1 => if lis s then Some (s, CDone oSrvAlready) else Some (s, PSrv)
   end.
 
 Record csys := mkCS { csh : cshared; cthr : list cpc }.
 
 Inductive clabel :=
-| LListen                         (* ListenAndServe: Client -> Listening *)
+| LListen                         (* a ListenAndServe that succeeds, as one step: Client, no listener -> Listening *)
 | LNewConn                        (* a new connection becomes active: its connectionActive thread starts *)
 | LConnMove (c : nat) (v : Z)     (* environment: connection c moves forward to state v *)
 | LClose                          (* a thread calls Channel.Close *)
 | LCallback (c : nat)             (* a thread enters connectionCloseStateChange(c) *)
 | LConnect                        (* a thread calls Channel.Connect (state test only) *)
-| LRunC (tid : nat) (arg : Z).
+| LRunC (tid : nat) (arg : Z)
+| LServe                          (* a thread calls Channel.Serve (at any moment, any number of times) *)
+| LListenServe.                   (* a thread calls Channel.ListenAndServe *)
 
 Definition cstep (s : csys) (l : clabel) : option csys :=
   let sh := csh s in
   match l with
   | LListen =>
-      if chst sh =? hClient then Some (mkCS (set_chst sh hListening) (cthr s)) else None
+      if (chst sh =? hClient) && negb (lis sh) then Some (mkCS (set_chst (set_lis sh true) hListening) (cthr s)) else None
   | LNewConn =>
       let c := length (cstates sh) in
-      Some (mkCS (mkC (chst sh) (conns sh) (cstates sh ++ [kA]) (g_closed sh) (g_owed sh)) (cthr s ++ [PAd1 c]))
+      Some (mkCS (add_cstate sh kA) (cthr s ++ [PAd1 c]))
   | LConnMove c v =>
       if (Nat.ltb c (length (cstates sh))) && (cstate sh c <? v) && (v <=? kCl)
       then Some (mkCS (set_cstate sh c v) (cthr s)) else None
   | LClose => Some (mkCS sh (cthr s ++ [PCl1]))
   | LCallback c =>
       if Nat.ltb c (length (cstates sh))
-      then Some (mkCS (mkC (chst sh) (conns sh) (cstates sh) (g_closed sh) (remn c (g_owed sh))) (cthr s ++ [PCb1 c]))
+      then Some (mkCS (set_owed sh (remn c (g_owed sh))) (cthr s ++ [PCb1 c]))
       else None
   | LConnect => Some (mkCS sh (cthr s ++ [PConn]))
   | LRunC tid arg =>
@@ -156,15 +179,18 @@ Definition cstep (s : csys) (l : clabel) : option csys :=
           | Some (sh', p') => Some (mkCS sh' (upd (cthr s) tid p'))
           end
       end
+  | LServe => Some (mkCS sh (cthr s ++ [PSrv]))
+  | LListenServe => Some (mkCS sh (cthr s ++ [PLs1]))
   end.
 
-Definition csh0 : cshared := mkC hClient [] [] 0 [].
+Definition csh0 : cshared := mkC hClient [] [] 0 [] false.
 Definition cinit : csys := mkCS csh0 [].
 
 (* ---- harness entry point ------------------------------------------------------------
    case:  nops (op a b)*
      op 0 listen; 1 new connection; 2 connection a moves to state b; 3 Close; 4 callback for
-     connection a; 5 Connect            -- output: nothing, or -1 when the label is not enabled
+     connection a; 5 Connect; 9 Serve (a new thread); 10 ListenAndServe (a new thread)
+                                        -- output: nothing, or -1 when the label is not enabled
      op 6: run thread a until it is at a schedule point whose class bit is set in mask b, or done;
            the scan step takes the current minimum (the harness never interleaves inside the scan)
                                         -- output: the class it stopped at (0 done, -1 stuck)
@@ -179,6 +205,7 @@ Definition cpc_class (p : cpc) : Z :=
   | PCb1 _ => 2        (* chan.closeStateChange.enter *)
   | PCb4 _ _ => 3      (* chan.closeStateChange.afterRead *)
   | PCb5 _ _ _ => 4     (* chan.closeStateChange.afterMinState with an update to apply *)
+  | PCb2 _ => 5        (* chan.removeClosedConn.beforeLock: the connection is Closed, its removal comes next *)
   | _ => 64
   end.
 
@@ -218,7 +245,8 @@ Fixpoint crun_ops (n : nat) (s : csys) (l : list Z) : list Z :=
           else
             let lbl := if op =? 0 then LListen else if op =? 1 then LNewConn
                        else if op =? 2 then LConnMove (Z.to_nat a) b else if op =? 3 then LClose
-                       else if op =? 4 then LCallback (Z.to_nat a) else LConnect in
+                       else if op =? 4 then LCallback (Z.to_nat a) else if op =? 9 then LServe
+                       else if op =? 10 then LListenServe else LConnect in
             match cstep s lbl with
             | Some s' => crun_ops n' s' r
             | None => -1 :: crun_ops n' s r
